@@ -134,11 +134,39 @@ class Facts:
             if it.get("did") is not None:
                 self.item_attrs[it["did"]] = it
         self._test_dids = None
+        self._devirtualize_into()
         # closures by parent
         self.children = {}
         for b in self.bodies:
             if b.parent_did is not None:
                 self.children.setdefault(b.parent_did, []).append(b)
+
+    def _devirtualize_into(self):
+        """`x.into()` resolves to core's blanket `impl<T, U: From<T>> Into<U> for T`, whose body is
+        `U::from(self)`. When the crate has that From impl, point the call at it so that call graphs,
+        summaries and expression trees see through the conversion."""
+        import re
+        def norm(t):
+            return re.sub(r"'[a-z_]+ ", "", t)
+        froms = {}
+        for im in self.impls:
+            if im.get("trait") == "core::convert::From" and len(im.get("trait_args", [])) == 2:
+                for it in im["items"]:
+                    if it["name"] == "from" and it.get("did") is not None:
+                        froms[(norm(im["trait_args"][0]), norm(im["trait_args"][1]))] = it
+        def fix(fn):
+            r = fn.get("res")
+            if r and r.get("path") == "<T as core::convert::Into<U>>::into" and len(fn.get("args", [])) == 2:
+                it = froms.get((norm(fn["args"][1]), norm(fn["args"][0])))
+                if it is not None:
+                    fn["res"] = {"path": it["path"], "full": it["path"], "local": True, "did": it["did"], "ikind": "item",
+                                 "via": "Into::into -> From::from"}
+        for b in self.bodies:
+            for bb in [b] + b.promoted:
+                for blk in bb.blocks:
+                    t = blk["term"]
+                    if t["k"] == "call" and t["func"]["k"] == "const" and "fn" in t["func"]:
+                        fix(t["func"]["fn"])
 
     # ---- lookups -------------------------------------------------------------------------
     def body(self, ident):
